@@ -250,7 +250,7 @@ class _Ctx:
             fs.default = None
         elif raw_default is not None:
             raise Unsupported("struct default")
-        if tag is not None and def_nullable and (array or raw_default != "null"):
+        if tag is not None and def_nullable and ((array and raw_default is not None) or (not array and raw_default != "null")):
             # a tagged nullable struct with default null is a recombination of attested constructs (tagged struct, nullable struct,
             # tagged nullable string with default null) and the generator emits `T | None = None` for it; nullable tagged struct
             # *arrays* and a tagged nullable struct without default have no derivable default in kio
